@@ -183,8 +183,97 @@ theorem getRoot_noabort (merge : D → D → D) (p : BatchProof D) (idxs : List 
   · simp
   · split
     · simp
-    · rename_i hh; exact absurd hh (grRun_noabort merge p idxs lv)
-    · split <;> simp
+    · split
+      · simp
+      · rename_i hh; exact absurd hh (grRun_noabort merge p idxs lv)
+      · split
+        · simp
+        · split <;> simp
+
+/-! ### the consumption check of `get_root` (fix f1ad895) -/
+
+/-- the check passes iff every pointer equals the length of the vector at the same position -/
+theorem unusedNodes_false_iff : ∀ (ptrs : List Nat) (pn : List (List D)),
+    unusedNodes ptrs pn = false ↔
+      ∀ (i q : Nat) (ns : List D), ptrs[i]? = some q → pn[i]? = some ns → q = ns.length
+  | [], pn => by simp [unusedNodes]
+  | q :: ptrs, [] => by simp [unusedNodes]
+  | q :: ptrs, ns :: pn => by
+    have ih := unusedNodes_false_iff ptrs pn
+    simp only [unusedNodes, List.zip_cons_cons, List.any_cons, Bool.or_eq_false_iff] at ih ⊢
+    rw [ih]
+    constructor
+    · rintro ⟨h0, hr⟩ i q' ms hq hm
+      cases i with
+      | zero =>
+        simp only [List.getElem?_cons_zero, Option.some.injEq] at hq hm
+        subst hq hm; simpa using h0
+      | succ i =>
+        simp only [List.getElem?_cons_succ] at hq hm
+        exact hr i q' ms hq hm
+    · intro hall
+      refine ⟨by simpa using hall 0 q ns rfl rfl, fun i q' ms hq hm => hall (i + 1) q' ms ?_ ?_⟩
+      · simpa using hq
+      · simpa using hm
+
+/-- pointers that are exactly the vector lengths pass the check -/
+theorem unusedNodes_map_length (pn : List (List D)) : unusedNodes (pn.map List.length) pn = false := by
+  rw [unusedNodes_false_iff]
+  intro i q ns hq hn
+  rw [List.getElem?_map, hn] at hq
+  exact (Option.some.inj hq).symm
+
+/-- with as many pointers as vectors, the check passes iff the pointers ARE the vector lengths -/
+theorem unusedNodes_false_eq (ptrs : List Nat) (pn : List (List D)) (hl : ptrs.length = pn.length)
+    (h : unusedNodes ptrs pn = false) : ptrs = pn.map List.length := by
+  rw [unusedNodes_false_iff] at h
+  apply List.ext_getElem?
+  intro i
+  rw [List.getElem?_map]
+  by_cases hi : i < ptrs.length
+  · obtain ⟨q, hq⟩ : ∃ q, ptrs[i]? = some q := ⟨ptrs[i], by simp [hi]⟩
+    obtain ⟨ns, hn⟩ : ∃ ns, pn[i]? = some ns := ⟨pn[i], by simp [← hl, hi]⟩
+    rw [hq, hn, h i q ns hq hn]; rfl
+  · rw [List.getElem?_eq_none (by omega), List.getElem?_eq_none (by omega)]; rfl
+
+theorem grLevels_ptrs_length (merge : D → D → D) (pn : List (List D)) :
+    ∀ (k : Nat) (idxs : List Nat) (st st' : GSt D),
+      idxs.length ≤ st.ptrs.length → st.ptrs.length ≤ pn.length →
+      grLevels merge pn k idxs st = .ok st' → st'.ptrs.length = st.ptrs.length
+  | 0, _, st, st', _, _, h => by
+    simp only [grLevels, Res.ok.injEq] at h; subst h; rfl
+  | k + 1, idxs, st, st', h1, h2, h => by
+    have hl := grLevel_shape merge pn idxs 0 st (by omega) h2
+    unfold grLevels at h
+    split at h
+    · cases h
+    · cases h
+    · rename_i r hr
+      have := hl.2 r hr
+      rw [grLevels_ptrs_length merge pn k r.2 r.1 st' (by omega) (by omega) h]
+      exact this.1
+
+/-- a successful common run leaves one pointer per node vector -/
+theorem grRun_ptrs_length (merge : D → D → D) (p : BatchProof D) (idxs : List Nat) (lv : List D)
+    (st : GSt D) (h : grRun merge p idxs lv = .ok st) : st.ptrs.length = p.nodes.length := by
+  unfold grRun at h
+  split at h
+  · cases h
+  · cases h
+  · rename_i imap _
+    split at h
+    · cases h
+    · rename_i hlen
+      have hlen' : (normalize idxs).length = p.nodes.length := by simpa using hlen
+      have hf := grFirst_shape merge imap lv p.nodes (pow2usize p.depth) (normalize idxs) 0 [] []
+        (by omega)
+      split at h
+      · cases h
+      · cases h
+      · rename_i r hr
+        have := hf.2 r hr
+        rw [grLevels_ptrs_length merge p.nodes _ r.2 r.1 st (by omega) (by omega) h]
+        omega
 
 theorem verifyBatch_noabort [DecidableEq D] (merge : D → D → D) (root : D) (p : BatchProof D)
     (idxs : List Nat) (lv : List D) : verifyBatch merge root idxs lv p ≠ .abort := by
